@@ -5,6 +5,13 @@ mod api;
 mod core;
 mod engine;
 mod limits;
+mod malformed;
+mod determ;
+mod lower;
+mod float;
+mod lp;
+mod gac;
+mod sudoku;
 mod out;
 mod rng;
 mod ss;
@@ -39,6 +46,13 @@ fn main() {
         "api" => api::suite(&mut out, seed, count),
         "limits" => limits::suite(&mut out, seed, count),
         "limits-deep" => limits::suite_deep(&mut out, seed, count),
+        "sudoku" => sudoku::suite(&mut out, seed, count, &args),
+        "gac" => gac::suite(&mut out, seed, count, &args),
+        "lp" => lp::suite(&mut out, seed, count, &args),
+        "float" => float::suite(&mut out, seed, count, &args),
+        "lower" => lower::suite(&mut out, seed, count, &args),
+        "determ" => determ::suite(&mut out, seed, count, &args),
+        "malformed" => malformed::suite(&mut out, seed, count, &args),
         "replay" => {
             // re-run the ops of a file verbatim (used by --replay)
             let path = arg(&args, "--ops", "");
@@ -78,6 +92,16 @@ fn replay(out: &mut Out, path: &str) {
                 core::replay_line(&mut sc, out, line);
             }
             engine::replay_line(&mut ec, out, line);
+        } else if w.starts_with("sd.") {
+            sudoku::replay_line(out, line);
+        } else if w.starts_with("gac.") {
+            gac::replay_line(out, line);
+        } else if w.starts_with("lp.") {
+            lp::replay_line(out, line);
+        } else if w.starts_with("fl.") {
+            float::replay_line(out, line);
+        } else if w.starts_with("lw.") {
+            lower::replay_line(out, line);
         } else if eng && w == "limit" {
             limits::replay_line(&ec, out, line);
         } else if w == "st.var" || w == "prune" || w == "ctx.min" || w == "ctx.max" {
